@@ -118,6 +118,9 @@ func (s *hsSes) toSession() *lime.Session {
 	out := &lime.Session{State: lime.SessionState(s.State), Compression: lime.SessionCompression(s.Comp),
 		Encryption: lime.SessionEncryption(s.Enc), Scheme: lime.AuthenticationScheme(s.Scheme), Authentication: toAuth(s.Auth)}
 	out.ID, out.From, out.To = s.ID, lnode(s.From), lnode(s.To)
+	if s.HasReason {
+		out.Reason = &lime.Reason{Code: 1, Description: "scripted"}
+	}
 	for _, o := range s.CompOpts {
 		out.CompressionOptions = append(out.CompressionOptions, lime.SessionCompression(o))
 	}
@@ -378,7 +381,7 @@ func runServerHs(c *hsCase) (obs hsObs) {
 			if pc.Quiescent() {
 				return true
 			}
-			pc.WaitPeerBlocked(200 * time.Microsecond)
+			time.Sleep(50 * time.Microsecond)
 		}
 		return false
 	}
